@@ -1,5 +1,6 @@
 import WK.Spec.C35
 import WK.Proofs.C35_Split
+import WK.Gen.C35
 /-
   C35 — Person and command channel ids are canonical.
 
@@ -345,5 +346,113 @@ theorem c35_judge_cmd_model (x : Bytes) :
     rcases c35_cmd_from x with ⟨_, h1⟩ | ⟨h0, _⟩
     · simp [hinv, h', ht, h1]
     · rw [h'] at h0; exact absurd h0 (by simp)
+
+
+/-! ## T tie: the functions regenerated from the Go source equal the model -/
+
+open WK.Gen.C35
+
+theorem splitByAux_sep (s : Bytes) : splitByAux sep s = splitAux s := by
+  induction s with
+  | nil => rfl
+  | cons c cs ih => simp [splitByAux, splitAux, ih]
+
+theorem splitBy_sep (s : Bytes) : splitBy sep s = split s := by
+  simp [splitBy, split, splitByAux_sep]
+
+theorem c35_gen_suffix : commandChannelSuffix = cmdSuffix := rfl
+
+theorem c35_gen_encode (l r : Bytes) : encodePersonChannel crc l r = encodePerson l r := by
+  unfold encodePersonChannel encodePerson join bytesGt
+  simp only [sep, List.append_assoc, List.cons_append, List.nil_append]
+  by_cases h1 : crc l > crc r
+  · simp [h1]
+  · by_cases h2 : crc l = crc r
+    · simp [h2]
+    · simp [h1, h2]
+
+theorem c35_gen_decode (c : Bytes) : decodePersonChannel crc c = decodePerson c := by
+  unfold decodePersonChannel decodePerson
+  have : (0x40 : UInt8) = sep := rfl
+  rw [this, splitBy_sep]
+  generalize split c = parts
+  match parts with
+  | [] => simp
+  | [a] => simp
+  | [a, b] => simp [List.isEmpty_iff]
+  | a :: b :: c :: rest => simp
+
+theorem c35_gen_normalize (s c : Bytes) : normalizePersonChannel crc s c = normalizePerson s c := by
+  unfold normalizePersonChannel normalizePerson
+  have : (0x40 : UInt8) = sep := rfl
+  rw [this, c35_gen_decode]
+  simp only [c35_gen_encode]
+  cases s <;> cases c <;> simp
+  all_goals (split <;> rfl)
+
+theorem c35_gen_is (c : Bytes) : isCommandChannel crc c = isCmd c := rfl
+
+theorem c35_gen_to (c : Bytes) : toCommandChannel crc c = toCmd c := by
+  unfold toCommandChannel toCmd; rw [c35_gen_is]; rfl
+
+theorem c35_gen_from (c : Bytes) : fromCommandChannel crc c = fromCmd c := by
+  unfold fromCommandChannel fromCmd goTrimSuffix
+  rw [c35_gen_is, c35_gen_suffix]
+  unfold isCmd
+  cases h : cmdSuffix.isSuffixOf c <;> simp [h]
+
+theorem c35_gen_agent_encode (u a : Bytes) : encodeAgentChannel crc u a = encodeAgent u a := by
+  unfold encodeAgentChannel encodeAgent join
+  simp [sep]
+
+theorem c35_gen_agent_decode (c : Bytes) : decodeAgentChannel crc c = decodeAgent c := by
+  unfold decodeAgent; rw [← c35_gen_decode]; rfl
+
+
+/-! ### the property, stated about the REGENERATED definitions -/
+
+theorem c35_gen_symmetric (a b : Bytes) : encodePersonChannel crc a b = encodePersonChannel crc b a := by
+  rw [c35_gen_encode, c35_gen_encode]; exact c35_symmetric a b
+
+theorem c35_gen_decode_encode (a b : Bytes) (ha : ValidUID a) (hb : ValidUID b) :
+    decodePersonChannel crc (encodePersonChannel crc a b) = some (a, b) ∨
+    decodePersonChannel crc (encodePersonChannel crc a b) = some (b, a) := by
+  rw [c35_gen_encode, c35_gen_decode]
+  rcases c35_decode_encode a b ha hb with ⟨_, h⟩ | ⟨_, h⟩
+  · left; exact h
+  · right; exact h
+
+theorem c35_gen_fails_closed (a b x y : Bytes)
+    (h : decodePersonChannel crc (encodePersonChannel crc a b) = some (x, y)) :
+    ValidUID a ∧ ValidUID b ∧ ((x = a ∧ y = b) ∨ (x = b ∧ y = a)) := by
+  rw [c35_gen_encode, c35_gen_decode] at h; exact c35_at_fails_closed a b x y h
+
+theorem c35_gen_normalize_idem (a b s : Bytes) (ha : ValidUID a) (hb : ValidUID b) (hs : s = a ∨ s = b) :
+    normalizePersonChannel crc s (encodePersonChannel crc a b) = some (encodePersonChannel crc a b) := by
+  rw [c35_gen_encode, c35_gen_normalize]; exact c35_normalize_idem a b s ha hb hs
+
+theorem c35_gen_sender_member (s c c' : Bytes) (h : normalizePersonChannel crc s c = some c') :
+    ∃ o, c' = encodePersonChannel crc s o := by
+  rw [c35_gen_normalize] at h
+  obtain ⟨⟨o, ho, _⟩, _⟩ := c35_sender_must_be_member s c c' h
+  exact ⟨o, by rw [c35_gen_encode]; exact ho⟩
+
+theorem c35_gen_cmd_idem (x : Bytes) : toCommandChannel crc (toCommandChannel crc x) = toCommandChannel crc x := by
+  simp only [c35_gen_to]; exact c35_cmd_idem x
+
+theorem c35_gen_cmd_inverse (x : Bytes) (h : isCommandChannel crc x = false) :
+    fromCommandChannel crc (toCommandChannel crc x) = (x, true) := by
+  rw [c35_gen_is] at h; rw [c35_gen_to, c35_gen_from]; exact c35_cmd_inverse x h
+
+-- non-vacuity: the generated definitions compute
+example : decodePersonChannel crc [0x61, 0x40, 0x62] = some ([0x61], [0x62]) := by decide
+example : decodePersonChannel crc [0x61, 0x40] = none := by decide
+example : toCommandChannel crc [0x61] = [0x61, 0x5f, 0x5f, 0x5f, 0x5f, 0x63, 0x6d, 0x64] := by decide
+example : fromCommandChannel crc (toCommandChannel crc [0x61]) = ([0x61], true) := c35_gen_cmd_inverse _ (by decide)
+example : isCommandChannel crc commandChannelSuffix = true := by decide
+example : encodeAgentChannel crc [0x75] [0x61] = [0x75, 0x40, 0x61] := by decide
+example : normalizePersonChannel crc [] [0x61] = none := by decide
+example : encodePersonChannel crc [0x61] [0x62] = encodePersonChannel crc [0x62] [0x61] := c35_gen_symmetric _ _
+example : ValidUID [0x61] ∧ ValidUID [0x62] := by decide
 
 end WK.C35
